@@ -34,8 +34,12 @@ Proof. intros s. split; [apply enc_wstring_no_panic|apply dec_wstring_no_panic].
 Print Assumptions c18_wstring_no_panic.
 
 (* non-vacuity: a 255-byte string is accepted and round-trips; a 256-byte one is refused *)
-Example c18_wstring_255 : exists b, enc_wstring (repeat 97 255) = Ok b /\ val dec_wstring (b ++ [7]) = Ok (repeat 97 255, [7]).
-Proof. eexists. split; vm_compute; reflexivity. Qed.
+Example c18_wstring_255 :
+  match enc_wstring (repeat 97 255) with
+  | Ok b => len b = 256 /\ val dec_wstring (b ++ [7]) = Ok (repeat 97 255, [7])
+  | _ => False
+  end.
+Proof. vm_compute. split; reflexivity. Qed.
 Example c18_wstring_256 : enc_wstring (repeat 97 256) = Err.
 Proof. vm_compute. reflexivity. Qed.
 
@@ -60,9 +64,11 @@ Proof. intros n s. split; [apply enc_name_no_panic|apply dec_name_no_panic]. Qed
 Print Assumptions c18_name_no_panic.
 
 Example c18_name_252_253 :
-  (exists b, enc_name (Nm (repeat 97 252) 1) = Ok b /\ val dec_name b = Ok (Nm (repeat 97 252) 1, []))
-  /\ enc_name (Nm (repeat 97 253) 1) = Err.
-Proof. split; [eexists; split|]; vm_compute; reflexivity. Qed.
+  match enc_name (Nm (repeat 97 252) 1) with
+  | Ok b => val dec_name b = Ok (Nm (repeat 97 252) 1, [])
+  | _ => False
+  end /\ enc_name (Nm (repeat 97 253) 1) = Err.
+Proof. vm_compute. split; reflexivity. Qed.
 
 (* ================= certs.IDChunk ================= *)
 Theorem c18_chunk_roundtrip : forall c b rest,
@@ -114,8 +120,8 @@ Print Assumptions c18_cert_no_panic.
 Definition sample_cert : cert :=
   Ct 1 1 1700000000 1800000000 [Nm [104; 111; 115; 116] 1] (repeat 7 32) (repeat 8 32) (repeat 9 64).
 Example c18_cert_sample : wt_cert sample_cert = true /\ repr_cert sample_cert = true /\
-  exists b, enc_cert sample_cert = Ok b /\ len b = 157.
-Proof. split; [|split; [|eexists; split]]; vm_compute; reflexivity. Qed.
+  match enc_cert sample_cert with Ok b => len b = 157 | _ => False end.
+Proof. vm_compute. repeat split; reflexivity. Qed.
 
 (* ================= authgrants.Intent ================= *)
 Theorem c18_intent_roundtrip : forall i b rest,
